@@ -189,6 +189,11 @@ def check_property(pid, tier, seed, shared=None):
             known_hit.append((oid, known_ids[oid]))
             continue
         violations.append((oid, diags))
+    # A failed *proof hint* (an assertion inside an inserted proof block) is not a contract clause: Verus assumes it afterwards, so what was
+    # proved after it rests on an unproved step.  Alone it makes the property undecided, never violated; next to failed clauses it is
+    # recorded in their replay files only.
+    hint_only = [v for v in violations if G.obligations[v[0]]['kind'] == 'proof-block']
+    violations = [v for v in violations if G.obligations[v[0]]['kind'] != 'proof-block']
 
     # obligations listed as open known findings are reported separately, not counted as proved or as owed
     known_oids = {oid for oid, _ in known_hit}
@@ -315,12 +320,16 @@ def check_property(pid, tier, seed, shared=None):
             with open(rp, 'w') as f:
                 json.dump({'property': pid, 'obligation': oid, 'kind': o['kind'], 'clause': o['text'], 'contract': o['origin'],
                            'function': o['fid'], 'repo_source': site_of(G, oid),
-                           'verifier': 'verus', 'verifier_output': diags,
+                           'verifier': 'verus', 'verifier_output': diags, 'failed_proof_hints_in_same_run': [v[0] for v in hint_only],
                            'counterexample': cex,
                            'how_to_replay': './check replay %s' % rp}, f, indent=1)
             tail = '' if cex else ' no-failing-input-found'
             print('VIOLATION property=%s replay=%s%s' % (pid, rp, tail))
         return 1
+    if hint_only:
+        print('UNDECIDED: proof hint(s) %s of %s no longer verify while every contract clause does: the proof needs repair, no clause of the property failed' % (
+            [v[0] for v in hint_only][:4], pid))
+        return 2
     print('OK property=%s obligations=%d discharged=%d functions=%d verus=%.1fs' % (pid, len(owed), discharged, len(fns), res['wall_s']))
     return 0
 
